@@ -94,15 +94,22 @@ func emit(c *reg.Ctx, via, src string, from, to int, ctx *diag.Context) {
 
 func run(c *reg.Ctx) {
 	// 1. exhaustive small: all sources of length <= 4 over {a, \n} with all ranges
+	//    (thorough: up to 7 symbols over {a, é, \n})
+	maxLen, letters := 4, []string{"a", "\n"}
+	if c.Tier == "thorough" {
+		maxLen, letters = 6, []string{"a", "é", "\n"}
+	}
 	small := []string{""}
-	for l := 0; l < 4; l++ {
+	level := []string{""}
+	for l := 0; l < maxLen; l++ {
 		var next []string
-		for _, s := range small {
-			if len(s) == l {
-				next = append(next, s+"a", s+"\n")
+		for _, s := range level {
+			for _, x := range letters {
+				next = append(next, s+x)
 			}
 		}
 		small = append(small, next...)
+		level = next
 	}
 	for _, s := range small {
 		for from := 0; from <= len(s); from++ {
